@@ -19,6 +19,7 @@ import (
 	"github.com/samsarahq/thunder/reactive"
 	"pgregory.net/rapid"
 
+	"verifharness/ev"
 	"verifharness/fakesock"
 	jv "verifharness/jsonval"
 	"verifharness/sched"
@@ -856,7 +857,7 @@ func Run(c Case) (res Result, sig string, err error) {
 		}
 		select {
 		case <-served:
-		case <-time.After(10 * time.Second):
+		case <-time.After(ev.Patience(10 * time.Second)):
 			return res, "serve-hangs", fmt.Errorf("ServeJSONSocket does not return within 10s after the socket closed: the connection does not wind down")
 		}
 		// everything must wind down: no resolver runs, no envelopes, resources released,
